@@ -2,6 +2,7 @@ package main
 
 import (
 	"bufio"
+	"crypto/sha256"
 	"encoding/json"
 	"fmt"
 	"math/rand"
@@ -36,6 +37,7 @@ type walkRec struct {
 	Nodes []walkNode `json:"nodes"`
 	Roots []int      `json:"roots"`
 	Runs  []walkRun  `json:"runs"`
+	Src   string     `json:"src,omitempty"`
 }
 
 type pathVisitor struct {
@@ -60,19 +62,20 @@ func (v *pathVisitor) Visit(n ast.Node) ast.Visitor {
 	return v
 }
 func (v *pathVisitor) VisitMany(ns []ast.Node) ast.Visitor { return v }
-func (v *pathVisitor) Field(name string) ast.Visitor        { return v.with(name) }
-func (v *pathVisitor) Index(i int) ast.Visitor              { return v.with("#" + strconv.Itoa(i)) }
+func (v *pathVisitor) Field(name string) ast.Visitor       { return v.with(name) }
+func (v *pathVisitor) Index(i int) ast.Visitor             { return v.with("#" + strconv.Itoa(i)) }
 
-func (g *gramRun) writeWalk(root ast.Node) {
+func (g *gramRun) writeWalk(root ast.Node, text string) {
 	roots := []ast.Node{root}
-	g.walkRecord(roots)
+	g.walkRecord(roots, text)
 	if g.prevRoot != nil && !g.walkBasic {
-		g.walkRecord([]ast.Node{g.prevRoot, root}) // the *Many variants
+		g.walkRecord([]ast.Node{g.prevRoot, root}, g.prevText+" || "+text) // the *Many variants
 	}
 	g.prevRoot = root
+	g.prevText = text
 }
 
-func (g *gramRun) walkRecord(roots []ast.Node) {
+func (g *gramRun) walkRecord(roots []ast.Node, text string) {
 	rec := walkRec{}
 	ids := map[ast.Node]int{}
 	var add func(n ast.Node, depth int)
@@ -149,6 +152,25 @@ func (g *gramRun) walkRecord(roots []ast.Node) {
 		}
 		rec.Runs = append(rec.Runs, run2)
 	}
+	// a sequence value is re-iterable: after an early break the same iter.Seq yields the whole pre-order again
+	if !g.walkBasic && n >= 2 {
+		run := walkRun{Mode: "preorder", Prune: []int{}, Stop: 0, Log: [][]any{}}
+		if ok, _ := safely(func() {
+			seq := ast.Preorder(roots[0])
+			if many {
+				seq = ast.PreorderMany(roots)
+			}
+			for range seq {
+				break
+			}
+			for nd := range seq {
+				run.Log = append(run.Log, []any{ids[nd], []string{}})
+			}
+		}); !ok {
+			run.Pan = true
+		}
+		rec.Runs = append(rec.Runs, run)
+	}
 	for _, stop := range []int{0, 1, 2, n / 2, n - 1} {
 		if stop < 0 || stop > n || g.walkBasic {
 			continue
@@ -173,6 +195,19 @@ func (g *gramRun) walkRecord(roots []ast.Node) {
 		rec.Runs = append(rec.Runs, run)
 	}
 	b, _ := json.Marshal(rec)
+	// identical records (same tree shape, same callbacks) are validated once
+	h := sha256.Sum256(b)
+	if g.walkSeen == nil {
+		g.walkSeen = map[[32]byte]bool{}
+	}
+	if g.walkSeen[h] {
+		g.stats.Starts["walk-records-identical"]++
+		return
+	}
+	g.walkSeen[h] = true
+	g.stats.Starts["walk-records-distinct"]++
+	rec.Src = strconv.QuoteToASCII(text) // the first input that produced this record (not part of what is validated)
+	b, _ = json.Marshal(rec)
 	g.walk.Write(b)
 	g.walk.WriteByte('\n')
 }
@@ -270,7 +305,9 @@ func (r *posReader) expect(t string) {
 		panic(fmt.Errorf("expected %q at token %d of %v", t, r.i, r.toks))
 	}
 }
-func isName(t string) bool { return t != "" && (t[0] == '_' || (t[0] >= 'A' && t[0] <= 'Z') || (t[0] >= 'a' && t[0] <= 'z')) }
+func isName(t string) bool {
+	return t != "" && (t[0] == '_' || (t[0] >= 'A' && t[0] <= 'Z') || (t[0] >= 'a' && t[0] <= 'z'))
+}
 
 func parsePosDoc(src string) (e any, err error) {
 	defer func() {
